@@ -389,14 +389,26 @@ of_status_t	of_rs_finish_decoding (of_rs_cb_t*	ofcb)
 	 * Let's decode now.
 	 * Create a context first, decode, then release this context.
 	 */
-	ofcb->rs_cb = of_rs_new (ofcb->nb_source_symbols, ofcb->nb_encoding_symbols);
-	if (of_rs_decode (ofcb->rs_cb, (void**)tmp_buf, (int*)tmp_esi, ofcb->encoding_symbol_length) != OF_STATUS_OK)
 	{
-		OF_PRINT_ERROR(("of_rs_finish_decoding: Error, of_rs_decode failure\n"))
-		goto error;
+		/* an OF_ENCODER_AND_DECODER instance that has already encoded owns a context: reuse it
+		 * instead of overwriting (and leaking) it; otherwise create one just for this decoding. */
+		bool	context_created_here = (ofcb->rs_cb == NULL);
+
+		if (context_created_here)
+		{
+			ofcb->rs_cb = of_rs_new (ofcb->nb_source_symbols, ofcb->nb_encoding_symbols);
+		}
+		if (of_rs_decode (ofcb->rs_cb, (void**)tmp_buf, (int*)tmp_esi, ofcb->encoding_symbol_length) != OF_STATUS_OK)
+		{
+			OF_PRINT_ERROR(("of_rs_finish_decoding: Error, of_rs_decode failure\n"))
+			goto error;
+		}
+		if (context_created_here)
+		{
+			of_rs_free (ofcb->rs_cb);
+			ofcb->rs_cb = NULL;
+		}
 	}
-	of_rs_free (ofcb->rs_cb);
-	ofcb->rs_cb = NULL;
 	ofcb->decoding_finished = true;
 #if 0
 	for (tmp_idx = 0; tmp_idx < k; tmp_idx++)
